@@ -95,6 +95,8 @@ func c04Jobs(tier string) []string {
 	// D31: a segment straddling the right edge and one wholly beyond it in one batch
 	add("or=w,devs=o,mss=1460,ws=-1,rcvbuf=200,pd=150+100,read=stall,b=1", 1)
 	add("or=w,devs=o,mss=1460,ws=-1,rcvbuf=200,pd=150+100+100,read=eager,b=1", 1)
+	add("or=swc,devs=go,mss=100,ws=-1,rcvbuf=200,pd=8x50,read=stall,b=1", 1) // two segments in one batch
+	add("or=swc,devs=go,mss=100,ws=3,rcvbuf=4096,pd=6x1000,read=eager,b=1", 1)
 	add("or=w,devs=q,mss=100,ws=2,pwnd=300,w=2000,b=1", 1)
 	add("or=w,devs=qkwhl,mss=536,ws=7,pwnd=1000,w=536+3000,b=1", 2)
 	// a loss and a path-MTU report in one history (retransmissions must respect the new MTU)
@@ -107,6 +109,8 @@ func c04Jobs(tier string) []string {
 		add(base+",mss=88,ws=-1,w=88+177,ptb=68,b=3", 64)
 		add(base+",mss=1460,ws=2,w=1460+1461,ptb=576,b=2", 16)
 		add("or=w,devs=ob,mss=100,ws=-1,rcvbuf=200,pd=8x50,read=stall,b=2", 8)
+		add("or=swc,devs=gob,mss=100,ws=3,rcvbuf=4096,pd=6x1000,read=stall,b=2", 8)
+		add("or=swc,devs=go,mss=1460,ws=-1,pd=1+7+33+1000+1,read=eager,b=2", 8)
 		add(base+",mss=536,ws=14,pwnd=4,w=70000,b=1", 4)
 		add(base+",mss=88,ws=-1,w=88+89+440,iss=4294967200,piss=2147483600,b=1", 2)
 	}
